@@ -26,6 +26,18 @@ pub struct DocObs {
     pub policy: String,
     pub kind: Option<String>,
     pub loadable: bool,
+    /// postcard bytes of the message a reconciliation session would open with (first key and the
+    /// fingerprint of the whole replica); `None` when the document cannot be opened
+    pub initial: Option<Vec<u8>>,
+}
+
+/// What a session opens with on a replica of `ns` that holds nothing.
+pub fn initial_message_of_an_empty_replica(cap: iroh_docs::Capability) -> Option<Vec<u8>> {
+    let mut s = Store::memory();
+    let ns = cap.id();
+    s.import_namespace(cap).ok()?;
+    let m = s.open_replica(&ns).ok()?.sync_initial_message().ok()?;
+    postcard::to_stdvec(&m).ok()
 }
 
 pub fn observe(store: &mut Store, ns: NamespaceId) -> anyhow::Result<DocObs> {
@@ -42,7 +54,13 @@ pub fn observe(store: &mut Store, ns: NamespaceId) -> anyhow::Result<DocObs> {
     }
     let loadable = store.load_replica_info(&ns).is_ok();
     store.close_replica(ns);
+    let initial = match store.open_replica(&ns) {
+        Ok(mut r) => r.sync_initial_message().ok().and_then(|m| postcard::to_stdvec(&m).ok()),
+        Err(_) => None,
+    };
+    store.close_replica(ns);
     Ok(DocObs {
+        initial,
         entries: d.values().map(|e| postcard::to_stdvec(e).unwrap()).collect(),
         heads: h.into_iter().map(|(a, (t, _))| (a, t)).collect(),
         peers,
@@ -124,6 +142,9 @@ fn fill(rng: &mut Rng, store: &mut Store, doc: &Doc, n: usize) {
 }
 
 pub fn run(ctx: &mut Ctx) {
+    if ctx.mode.as_deref() == Some("engine") {
+        return super::c16engine::run(ctx);
+    }
     let scratch = Scratch::new();
     // searched once per shard: neighbours in byte order, ids ending in FF
     let ff1 = namespace_ending_in(0xFF, 1);
@@ -247,6 +268,7 @@ pub fn run(ctx: &mut Ctx) {
                                             if o.peers != before[i].peers { left.push("peers"); }
                                             if o.policy != before[i].policy { left.push("policy"); }
                                             if o.kind != before[i].kind { left.push("capability"); }
+                                            if o.initial != before[i].initial { left.push("session-opening-message"); }
                                             let sig = if i == t { format!("crash-inside-removal-leaves-part-of-the-document:{}", left.join("+")) } else { format!("crash-inside-removal-changes-another-document:{}", left.join("+")) };
                                             ctx.violation(case, &sig, json!({"doc": i, "removed": t, "store_access_of_the_removal": p, "trace": trace}));
                                             return;
@@ -299,6 +321,11 @@ pub fn run(ctx: &mut Ctx) {
                     ctx.count("recreations", 1);
                     match observe(&mut store, ids[t]) {
                         Ok(o) => {
+                            // what a session would open with: that of a replica holding nothing
+                            let fresh = initial_message_of_an_empty_replica(docs[t].capability());
+                            if o.initial != fresh {
+                                ctx.violation(case, "re-created-document-opens-sessions-with-a-stale-fingerprint", json!({"doc": t, "trace": trace}));
+                            }
                             if !o.entries.is_empty() || !o.heads.is_empty() || o.peers.is_some()
                                 || o.policy != format!("{:?}", DownloadPolicy::default())
                             {
@@ -365,6 +392,7 @@ pub fn run(ctx: &mut Ctx) {
                             if o.peers != before[i].peers { what.push("peers"); }
                             if o.policy != before[i].policy { what.push("policy"); }
                             if o.kind != before[i].kind || o.loadable != before[i].loadable { what.push("capability"); }
+                            if o.initial != before[i].initial { what.push("session-opening-message"); }
                             ctx.violation(case, &format!("other-document-changed:{}", what.join("+")), json!({"doc": i, "step": step, "trace": trace,
                                 "entries_before": before[i].entries.len(), "entries_after": o.entries.len()}));
                         }
